@@ -1,5 +1,4 @@
 // L0: characters and intervals (oracle; written from the set-theoretic meaning)
-pub const MAX_CHAR: u32 = 0x2FFFF;
 
 pub open spec fn cs_wf(c: CharSet) -> bool {
     c.start <= c.end && c.end <= MAX_CHAR
